@@ -66,7 +66,7 @@ LITKIND = {'int': 'Integer', 'float': 'Float', 'str': 'String', 'bool': 'Boolean
 #: hash(2**61) == hash(1), hash(-1.0) == hash(-2.0))
 POOL = {
     'int': [-1, -2, 0, 2**61 - 1, 1, 2**61, 2, 3],
-    'float': [-1.0, -2.0, 0.5, 1.0, 2.0],
+    'float': [-1.0, -2.0, 0.5, 1.0, 2.0, 0.0, -0.0],
     'str': ['a', 'b', ''],
     'bool': [True, False],
     'date': ['2020-01-01', '2021-06-30'],
@@ -1149,7 +1149,7 @@ class Gen:
             keys = []
             for _ in range(rng.choice((1, 1, 2))):
                 key = rng.choice(cols) if 'exprs' not in shape or rng.random() < 0.6 else self.scalar(
-                    env, scope, rng.choice(('Integer', 'Float', 'String')), 1)
+                    env, scope, rng.choice(('Integer', 'Float', 'String', 'Boolean')), 1)
                 if signature(key) not in {signature(k) for k in keys}:
                     keys.append(key)
             groupby = keys
